@@ -9,13 +9,7 @@ from pDESy.model.base_project import BaseProject
 
 
 def uses_only_saved_settings(spec):
-    """conveyor links, main workplaces and per-task priority rules are not part of the JSON format"""
-    if any(wp.get("inputs") for wp in spec.get("workplaces", [])):
-        return False
-    if any(w.get("mainwp") for tm in spec.get("teams", []) for w in tm.get("workers", [])):
-        return False
-    if any(t.get("wrule") or t.get("frule") or t.get("wprule") for t in spec["tasks"]):
-        return False
+    """everything the spec builder can set is part of the saved format, except the file a sub-project task points to"""
     if any(t.get("sub") for t in spec["tasks"]):
         return False
     return True
@@ -91,6 +85,8 @@ def items(tier):
         sp["tasks"][0]["progress"] = 0.5
         for aa in (False, True):
             out.append((sp, {"rule": "TSLACK", "absence": [0, 2], "auto_abs": aa, "max_time": F.seq_bound(sp) + 10}))
+    for sp in F.rule_sensitive_specs():
+        out.append((sp, {"rule": "TSLACK", "max_time": F.seq_bound(sp) + 8}))
     for sp in F.fac_specs(tier):
         out.append((sp, {"rule": "TSLACK", "max_time": F.seq_bound(sp) + 8}))
         if tier == "thorough":
@@ -108,7 +104,7 @@ def run(tier, seed):
         "settings are part of the saved format - through write_simple_json/read_simple_json into a new project; the complete dump (all logs, costs, time, status, live state) must equal the uninterrupted run; "
         "non-trivial = distinct (model, mid-run pause step, mode)",
         "bounds": {"models": len(its), "pause_steps": "all of 0..makespan+1"},
-        "assumptions": ["JSON variant skipped for models with conveyor links, main workplaces or per-task priority rules (not in the saved format; C16 reports those)"],
+        "assumptions": ["JSON variant skipped only for models with sub-project tasks"],
     }
     if col.checks["c15.json"] == 0:
         meta["vacuous"] = "json variant never ran"
